@@ -22,7 +22,7 @@ LEVEL = 'model_checking'
 TECHNIQUE = 'explicit-state model checking (TLC) of the solver state machine + exhaustive replay of all model traces on BaseModel.solve_t; bounded exhaustive enumeration of (t, offset, option) lattices'
 RULE = ('states/transitions: TLC over SolveT.tla (Outcomes={conv,moved}); every terminal state replayed on the real solve_t '
         'under all single (quick) / pairwise (thorough) concretisation deviations; plus all (t, offset) in [-5,4]x[-6,6], '
-        'solve_period over label spans, and parser-built systems x option lattice vs reference loop. '
+        'solve_period over label spans, the same traces through solve_period/solve and on classes stacking the Tracer/Alias mixins, and parser-built systems x option lattice vs reference loop. '
         'non-trivial = execution performing at least one evaluation pass or rejecting with its prescribed exception')
 ASSUMPTIONS = [
     'scripted models realise outcomes exactly (tol=0.5, steps multiples of 0.25)',
